@@ -56,12 +56,16 @@ class ParComp(Process):
     defaults = {'timestep': 1, 'empty': False}
 
     def ports_schema(self):
-        return {'v': {'x': dict(sr.X_SCHEMA)}}
+        # 'out' is wired to a store at the top of the hierarchy: it survives the
+        # compartment, so the last update of a process that is deleted or divided in
+        # the batch in which that update is due still shows there
+        return {'v': {'x': dict(sr.X_SCHEMA)},
+                'out': {'n': {'_default': 0, '_emit': True}}}
 
     def next_update(self, timestep, states):
         if self.parameters['empty']:
             return {}
-        return {'v': {'x': 1}}
+        return {'v': {'x': 1}, 'out': {'n': 1}}
 
 
 class Bomb(Process):
@@ -88,7 +92,8 @@ def comp(name, ts, parallel=True, empty=False):
     cfg = {'name': 'r%d_%s' % (_RUN[0], name), 'timestep': ts, 'empty': empty}
     if parallel:
         cfg['_parallel'] = True
-    return {'processes': {'p': ParComp(cfg)}, 'topology': {'p': {'v': ('v',)}},
+    return {'processes': {'p': ParComp(cfg)},
+            'topology': {'p': {'v': ('v',), 'out': ('..', '..', 'outs')}},
             'initial_state': {'v': {'x': 0}}}
 
 
@@ -165,13 +170,25 @@ def drain_hooks(recs):
     verif_hooks.reset()
 
 
-def run_protocol(sc):
+def plain_values(eng):
+    """every variable of the hierarchy (the process nodes left out)"""
+    def strip(d):
+        if isinstance(d, dict):
+            return {k: strip(v) for k, v in d.items()
+                    if not isinstance(v, Process)
+                    and not (isinstance(v, tuple) and v and isinstance(v[0], Process))}
+        return d
+    return strip(eng.state.get_value())
+
+
+def run_protocol(sc, parallel=True, values=None):
     """sc: {'comps': [(name, ts)], 'ops': {tick: op}, 'ticks': n, 'finish': [...],
             'bomb': tick or None}
     op: ('del', name) | ('div', name, d1, d2) | ('move', name) | ('gen', name, ts)
     finish: list of 'end' | 'gc' """
     preload()
-    assert verif_hooks.ENABLED, 'VIVARIUM_CORE_VERIF=1 must be set before importing vivarium'
+    assert verif_hooks.ENABLED or not parallel, \
+        'VIVARIUM_CORE_VERIF=1 must be set before importing vivarium'
     gc.collect()
     _RUN[0] += 1
     _OIDS.clear()
@@ -193,13 +210,13 @@ def run_protocol(sc):
                     {'key': op[2]}, {'key': op[3]}]}}}
                 continue
             for d in (op[2], op[3]):
-                t = comp(d, op[4])
+                t = comp(d, op[4], parallel=parallel)
                 t['key'] = d
                 t['initial_state'] = {}
                 ds.append(t)
             script[tick] = {'agents': {'_divide': {'mother': op[1], 'daughters': ds}}}
         elif op[0] == 'gen':
-            t = comp(op[1], op[2])
+            t = comp(op[1], op[2], parallel=parallel)
             t['key'] = op[1]
             script[tick] = {'agents': {'_generate': [t]}}
     processes = {'director': ParDirector({'script': script}), 'agents': {}}
@@ -209,7 +226,7 @@ def run_protocol(sc):
         processes['bomb'] = Bomb({'at': sc['bomb']})
         topology['bomb'] = {'b': ('b',)}
     for name, ts in sc['comps']:
-        c = comp(name, ts)
+        c = comp(name, ts, parallel=parallel)
         processes['agents'][name] = c['processes']
         topology['agents'][name] = c['topology']
         state['agents'][name] = c['initial_state']
@@ -251,6 +268,8 @@ def run_protocol(sc):
                 if op and op[0] == 'move':
                     recs.append({'ev': 'expect_live', 'ws': [op[1]], 'why': 'moved, still in the tree'})
                 recs.append({'ev': 'alive', 'ws': alive(known), 'known': sorted(known)})
+                if values is not None:
+                    values.append(plain_values(eng))
             for fin in sc['finish']:
                 if recs and recs[-1]['ev'] == 'error':
                     break
